@@ -299,7 +299,50 @@ def fn_b(*args, **kwargs):
 
 FUNCS = {'fn_a': fn_a, 'fn_b': fn_b}
 
-CUSTOM_CLASSES = (CG, CN, CS, CM, CU, CI, DC, oft.partial)
+class Bad:
+    """Deliberately malformed custom node (C03 error parity, C15): flatten misbehaves per kind."""
+
+    KINDS = ('len1', 'len4', 'children_int', 'entries_short', 'entries_long', 'entries_int',
+             'ret_none', 'raises')
+
+    def __init__(self, kind):
+        self.kind = kind
+
+    def __repr__(self):
+        return f'Bad({self.kind!r})'
+
+    def _v_fields(self):
+        return (), ('kind', self.kind)
+
+
+class BadFlattenError(Exception):
+    pass
+
+
+def bad_flatten(o):
+    k = o.kind
+    if k == 'len1':
+        return ((),)
+    if k == 'len4':
+        return ((), None, None, None)
+    if k == 'children_int':
+        return (5, None)
+    if k == 'entries_short':
+        return ((1, 2), None, ('a',))
+    if k == 'entries_long':
+        return ((1,), None, ('a', 'b'))
+    if k == 'entries_int':
+        return ((1,), None, 7)
+    if k == 'ret_none':
+        return None
+    raise BadFlattenError(k)
+
+
+def bad_unflatten(meta, ch):
+    return Bad('rebuilt')
+
+
+CUSTOM_CLASSES = (CG, CN, CS, CM, CU, CI, DC, oft.partial, Bad)
 
 # (namespace, type) -> (flatten, unflatten, path_entry_type).  '' is the global namespace.
 MODEL_REGISTRY: dict = {}
@@ -337,6 +380,8 @@ def install():
     MODEL_REGISTRY[(NS, DC)] = (e.flatten_func, e.unflatten_func, optree.DataclassEntry)
     MODEL_REGISTRY[('', oft.partial)] = (_cls_flatten, oft.partial.tree_unflatten,
                                          optree.GetAttrEntry)
+    # malformed node: registered with optree only (the model never flattens it)
+    optree.register_pytree_node(Bad, bad_flatten, bad_unflatten, namespace=GLOBAL)
 
 
 install()
